@@ -1,24 +1,37 @@
 #!/bin/bash
 # tools/seed_eval.sh <seed-id> <worktree> <demo-file> <PROP> [<PROP>...]
-# 1. confirms the seeded change in a scratch worktree (demo fails with it, passes without), 2. applies it to /repo, runs the
-# quick checks of the given properties, 3. restores /repo.  Results go to /verif/seeded/<seed-id>/.
+# 1. confirms the seeded change in a scratch worktree (demo fails with it, passes without), 2. runs the quick checks of the
+# given properties against the changed code, 3. restores.  Results go to /verif/seeded/<seed-id>/.
+# Default mode applies the patch to /repo itself (git -C /repo apply ... ; git -C /repo checkout -- .).  With SEED_SCRATCH=1 the
+# checks instead run against a scratch worktree /tmp/seedwt_<id>/repo put first on PYTHONPATH (the engine imports `cubed` from
+# sys.path and recognises code under test by "/repo/" in the file name), so that /repo is not disturbed while other runs
+# (vp run, baseline suite) are using it.  Evidence files rewritten by these runs are restored from git afterwards.
 set -u
 ID=$1; WT=$2; DEMO=$3; shift 3
 D=/verif/seeded/$ID; mkdir -p $D
-cp $WT/patch.diff $D/patch.diff; cp $WT/$DEMO $D/$DEMO
-SCR=/tmp/seedscratch_$ID
+[ -f $WT/patch.diff ] && cp $WT/patch.diff $D/patch.diff
+[ -f $WT/$DEMO ] && cp $WT/$DEMO $D/$DEMO
+SCR=/tmp/seedwt_$ID/repo; mkdir -p /tmp/seedwt_$ID
 git -C /repo worktree add -q --detach $SCR HEAD
-( cd $SCR && PYTHONPATH=$SCR timeout 600 /venv/bin/python $D/$DEMO >$D/demo_without.log 2>&1; echo "demo without change: exit $?" ) | tee $D/confirm.log
-( cd $SCR && git apply $D/patch.diff && PYTHONPATH=$SCR timeout 600 /venv/bin/python $D/$DEMO >$D/demo_with.log 2>&1; echo "demo with change: exit $?" ) | tee -a $D/confirm.log
-git -C /repo worktree remove --force $SCR
+( cd $SCR && PYTHONPATH=$SCR timeout 900 /venv/bin/python $D/$DEMO >$D/demo_without.log 2>&1; echo "demo without change: exit $?" ) | tee $D/confirm.log
+( cd $SCR && git apply $D/patch.diff && PYTHONPATH=$SCR timeout 900 /venv/bin/python $D/$DEMO >$D/demo_with.log 2>&1; echo "demo with change: exit $?" ) | tee -a $D/confirm.log
 cd /verif
-git -C /repo apply $D/patch.diff || { echo "PATCH DOES NOT APPLY TO /repo"; exit 2; }
+if [ "${SEED_SCRATCH:-0}" = 1 ]; then
+  export PYTHONPATH=$SCR
+  echo "checks run against scratch worktree $SCR (PYTHONPATH)" | tee -a $D/confirm.log
+else
+  git -C /repo worktree remove --force $SCR; rmdir /tmp/seedwt_$ID 2>/dev/null
+  git -C /repo apply $D/patch.diff || { echo "PATCH DOES NOT APPLY TO /repo"; exit 2; }
+fi
 for P in "$@"; do
-  ./check $P --tier quick > $D/check_$P.log 2>&1; rc=$?
+  ./check $P --tier quick ${SEED_ONLY:+--only "$SEED_ONLY"} > $D/check_$P.log 2>&1; rc=$?
   echo "check $P: exit $rc; $(grep -c '^VIOLATION' $D/check_$P.log) VIOLATION line(s); $(grep -c 'HARNESS-ERROR' $D/check_$P.log) harness-error line(s); $(grep -c '^INCONCLUSIVE' $D/check_$P.log) inconclusive" | tee -a $D/confirm.log
   grep -m3 "counterexample" $D/check_$P.log | cut -c1-300
+  git -C /verif checkout -- evidence/$P.json 2>/dev/null
 done
-git -C /repo checkout -- .
-git -C /repo status --short | grep -v '^??' && echo "WARNING: /repo not clean"
-# evidence files were rewritten by the runs on the mutated tree: restore the committed ones
-git -C /verif checkout -- evidence 2>/dev/null
+if [ "${SEED_SCRATCH:-0}" = 1 ]; then
+  git -C /repo worktree remove --force $SCR; rmdir /tmp/seedwt_$ID 2>/dev/null
+else
+  git -C /repo checkout -- .
+  git -C /repo status --short | grep -v '^??' && echo "WARNING: /repo not clean"
+fi
